@@ -99,6 +99,7 @@ def _applicable(entry, F, C):
 
 def tasks(tier):
     cells = L.CELL_QUICK if tier == "quick" else L.CELL_THOROUGH
+    parts = 1 if tier == "quick" else 4
     out = []
     for cname in cells:
         for fname in L.FACE_MENU:
@@ -109,19 +110,9 @@ def tasks(tier):
                         continue                      # the switch is not read without cells
                     if not F and not C and not cE:
                         continue                      # nor this one without faces
-                    for entry, rows in VARIANTS:
-                        if not _applicable(entry, F, C):
-                            continue
-                        base = (entry, rows) == ("inst", "list")
-                        if tier == "quick":
-                            alpha, maxlen = "small", 2
-                        else:
-                            alpha, maxlen = ("full", 3) if base else ("full", 2)
-                        out.append({"kind": "norm", "F": fname, "C": cname, "cE": cE, "cF": cF, "entry": entry, "rows": rows,
-                                    "alpha": alpha, "maxlen": maxlen, "extra_v_upto": 1 if tier == "quick" else 3})
-                        if tier == "thorough" and not base and entry in ("ctor", "inst"):
-                            out.append({"kind": "norm", "F": fname, "C": cname, "cE": cE, "cF": cF, "entry": entry, "rows": rows,
-                                        "alpha": "small", "maxlen": 3, "only_len": 3, "extra_v_upto": 0})
+                    for part in range(parts):
+                        out.append({"kind": "norm", "F": fname, "C": cname, "cE": cE, "cF": cF, "tier": tier,
+                                    "part": part, "parts": parts})
             sws = [(True, True)] if tier == "quick" else [(a, b) for a in (True, False) for b in (True, False)]
             for cE, cF in sws:
                 if (not C and not cF) or (not F and not C and not cE):
@@ -129,7 +120,7 @@ def tasks(tier):
                 out.append({"kind": "twins", "F": fname, "C": cname, "cE": cE, "cF": cF,
                             "maxlen": 1 if tier == "quick" else 2})
     # expensive first
-    out.sort(key=lambda t: (t["kind"] != "twins", -t["maxlen"], t["C"] not in ("hex2", "tet_hex", "hex")))
+    out.sort(key=lambda t: (t["C"] not in ("hex2", "tet_hex", "hex"), t["kind"] != "norm", t["C"] == "none"))
     return out
 
 
@@ -344,7 +335,9 @@ def evaluate_saveload(M, inp, fmt, tmp, rep):
     except Exception as e:  # noqa: BLE001
         rep.outcome("build", "raises:" + type(e).__name__)
         rep.traces += 1
-        return [("C02.build.completes", "raises:" + type(e).__name__, "saved_by_mouette:in:" + L.lib_root(e.__traceback__),
+        bf = Built(exc=type(e).__name__, root=L.lib_root(e.__traceback__))
+        icls = build_failure_class(inp2, bf)
+        return [("C02.build.completes", "raises:" + type(e).__name__, icls if icls.startswith("cells:complete") else "saved_by_mouette:in:" + bf.root,
                  {"msg": str(e)[:200], "file_carries": {"E": E, "F": F, "C": C}})], None
     rep.traces += 1
     rep.transitions += 2
@@ -413,7 +406,7 @@ def report(rep, devs, inp, entry, rows, baseline_keys, seen_local):
         if baseline_keys is not None and key in baseline_keys:
             rep.count("variant_deviation_already_in_baseline")
             continue
-        if baseline_keys is None:
+        if baseline_keys is None or icls == "cells:complete_faces_from_cells=False":
             callee = "RawMeshData.prepare" if sub != "C02.class" else "_instanciate_raw_mesh_data"
         else:
             callee = CALLEE.get(entry) or ("load(." + entry[5:] + ")" if entry.startswith("file:") else "save+load(." + entry[9:] + ")")
@@ -436,68 +429,92 @@ def report(rep, devs, inp, entry, rows, baseline_keys, seen_local):
 
 
 # ------------------------------------------------------------------------------------------------ norm tasks
+def edge_sequences(tier):
+    """-> list of (symbols, variants_too): the baseline sees every list, the other entry points / row types the
+    lists of the variant bound."""
+    if tier == "quick":
+        return [(seq, True) for seq in L.edge_lists(L.SYMS_SMALL, 2)]
+    small3 = set(tuple(x) for x in L.edge_lists(L.SYMS_SMALL, 3))
+    return [(seq, len(seq) <= 2 or tuple(seq) in small3) for seq in L.edge_lists(L.SYMS_FULL, 3)]
+
+
 def inputs_of(task):
+    """-> (input, variants_too) for the baseline; which variant applies to which input is decided by variant_inputs"""
     F, C = L.FACE_MENU[task["F"]], L.CELL_MENU[task["C"]]
     need = L.nv_needed(F, C)
-    syms = L.SYMS_SMALL if task["alpha"] == "small" else L.SYMS_FULL
-    lists = L.edge_lists(syms, task["maxlen"])
-    if task.get("only_len"):
-        lists = [s for s in lists if len(s) == task["only_len"]]
-    entry = task["entry"]
-    for seq in lists:
+    k = -1
+    for seq, vt in edge_sequences(task["tier"]):
         if need == 0:
             nvs = [0, 1, 2, 3, 4]
         else:
-            nvs = [need] + ([need + 1] if len(seq) <= task["extra_v_upto"] else [])
+            nvs = [need] + ([need + 1] if (len(seq) <= 1 or task["tier"] == "thorough") else [])
         for nv in nvs:
+            k += 1
+            if k % task["parts"] != task["part"]:
+                continue
             E = [L.resolve(s, nv) for s in seq]
-            if entry.startswith("file:"):
-                if nv == 0 or not L.format_can_declare(entry[5:], E, F, C):
-                    continue
-                modes = ["none"] + (["sparse_all", "sparse_some"] if (entry == "file:geogram_ascii" and E) else [])
-                pres = ["absent"]
-            elif entry in ("arrays", "arrays2d") or entry.startswith("saveload:"):
-                modes, pres = ["none"], ["absent"]
-            else:
-                modes = ["none"] + (["sparse_all", "dense", "dense_vec"] if E else []) + (["sparse_some"] if len(E) >= 2 else [])
-                pres = ["absent"] + (["consistent"] if (F or C) else []) + (["cc_elem_only"] if C else [])
+            modes = ["none"] + (["sparse_all", "dense", "dense_vec"] if E else []) + (["sparse_some"] if len(E) >= 2 else [])
+            pres = ["absent"] + (["consistent"] if (F or C) else []) + (["cc_elem_only"] if C else [])
             for mode in modes:
                 for pre in (pres if mode == "none" else ["absent"]):
                     yield {"pts": "CUBE" if "hex" in task["C"] else "G", "nv": nv, "E": E, "F": F, "C": C, "attr": mode,
-                           "prefill": pre, "cE": task["cE"], "cF": task["cF"], "syms": seq}
+                           "prefill": pre, "cE": task["cE"], "cF": task["cF"], "syms": seq}, vt
+
+
+def variant_applies(entry, rows, inp, tier):
+    F, C, E = inp["F"], inp["C"], inp["E"]
+    plain = inp["attr"] == "none" and inp["prefill"] == "absent"
+    if entry in ("ctor", "inst"):
+        if tier == "quick" and inp["nv"] > L.nv_needed(F, C) > 0:
+            return False                               # quick: the extra isolated vertex only for the baseline
+        return True
+    if entry in ("arrays", "arrays2d"):
+        return plain and _applicable(entry, F, C)
+    if entry.startswith("file:"):
+        fmt = entry[5:]
+        if inp["nv"] == 0 or inp["prefill"] != "absent" or not L.format_can_declare(fmt, E, F, C):
+            return False
+        return inp["attr"] == "none" or (fmt == "geogram_ascii" and inp["attr"] in ("sparse_all", "sparse_some"))
+    if entry.startswith("saveload:"):
+        return plain and _applicable(entry, F, C)
+    return False
 
 
 def run_norm(task, rep):
     import mouette as M
-    entry, rows = task["entry"], task["rows"]
-    base = (entry, rows) == ("inst", "list")
-    tmp = tempfile.mkdtemp(prefix="c02_", dir="/dev/shm") if ":" in entry else None
+    tmp = tempfile.mkdtemp(prefix="c02_", dir="/dev/shm")
     seen_local = {}
     states = set()
+    tier = task["tier"]
     try:
-        for inp in inputs_of(task):
-            if base:
-                devs, o = evaluate(M, inp, entry, rows, tmp, rep)
-                report(rep, devs, inp, entry, rows, None, seen_local)
-            else:
-                devs0, _ = evaluate(M, inp, "inst", "list", tmp, Report())      # baseline: not counted twice
-                devs, o = evaluate(M, inp, entry, rows, tmp, rep)
-                report(rep, devs, inp, entry, rows, set((s, k, i) for s, k, i, _ in devs0), seen_local)
-            if o is not None:
-                states.add(L.okey(o))
-                rep.flag("class:" + o["cls"])
-            if inp["E"] or inp["F"] or inp["C"]:
-                rep.case((inp["nv"], inp["E"], task["F"], task["C"], inp["attr"], inp["prefill"], inp["cE"], inp["cF"], entry, rows))
+        for inp, variants_too in inputs_of(task):
+            devs0, o = evaluate(M, inp, "inst", "list", tmp, rep)
+            report(rep, devs0, inp, "inst", "list", None, seen_local)
+            keys0 = set((s_, k_, i_) for s_, k_, i_, _ in devs0)
+            todo = [("inst", "list", o)]
+            if variants_too:
+                for entry, rows in VARIANTS[1:]:
+                    if not variant_applies(entry, rows, inp, tier):
+                        continue
+                    devs, o1 = evaluate(M, inp, entry, rows, tmp, rep)
+                    report(rep, devs, inp, entry, rows, keys0, seen_local)
+                    todo.append((entry, rows, o1))
+            for entry, rows, o1 in todo:
+                if o1 is not None:
+                    states.add(L.okey(o1))
+                    rep.flag("class:" + o1["cls"])
+                rep.flag("entry:" + entry)
+                rep.flag("rows:" + rows)
+                if inp["E"] or inp["F"] or inp["C"]:
+                    rep.case((inp["nv"], inp["E"], task["F"], task["C"], inp["attr"], inp["prefill"], inp["cE"], inp["cF"], entry, rows))
+                rep.count("builds_checked")
             if len(inp["E"]) == 2 and inp["attr"] == "sparse_all":
-                rep.sample({"input": {k: inp[k] for k in ("nv", "E", "F", "C", "attr", "cE", "cF")}, "entry": entry, "rows": rows})
+                rep.sample({"input": {k: inp[k] for k in ("nv", "E", "F", "C", "attr", "cE", "cF")}, "variants": [t[0] + "/" + t[1] for t in todo]})
             rep.count("inputs")
     finally:
-        if tmp:
-            shutil.rmtree(tmp, ignore_errors=True)
+        shutil.rmtree(tmp, ignore_errors=True)
         M.config.complete_edges_from_faces, M.config.complete_faces_from_cells = DEFAULT_SW
     rep.states += len(states)
-    rep.flag("entry:" + entry)
-    rep.flag("rows:" + rows)
     rep.count("tasks:norm")
 
 
@@ -665,7 +682,7 @@ def finish(tier, rep: Report):
             fails.append("never observed: " + c)
     if len(rep.outcomes.get("build", ())) < 4:
         fails.append("fewer than 4 distinct build outcomes")
-    floor = {"quick": 20000, "thorough": 200000}[tier]
-    if rep.counters.get("inputs", 0) < floor:
-        fails.append(f"only {rep.counters.get('inputs', 0)} inputs built (floor {floor})")
+    floor = {"quick": 40000, "thorough": 400000}[tier]
+    if rep.counters.get("builds_checked", 0) < floor:
+        fails.append(f"only {rep.counters.get('builds_checked', 0)} builds checked (floor {floor})")
     return fails
